@@ -10,6 +10,7 @@ package consensus
 import (
 	"github.com/icon-project/goloop/common"
 	"github.com/icon-project/goloop/common/crypto"
+	"github.com/icon-project/goloop/common/db"
 	"github.com/icon-project/goloop/module"
 )
 
@@ -107,4 +108,33 @@ func toString(x interface{}) string {
 		return v
 	}
 	return "panic"
+}
+
+// VerifC05EngineValidators returns the validator list object the engine checks
+// fast-synced commit votes against (the set designated by its last block).
+func VerifC05EngineValidators(c module.Consensus) module.ValidatorList {
+	cs := c.(*consensus)
+	cs.mutex.Lock()
+	defer cs.mutex.Unlock()
+	return cs.validators
+}
+
+// VerifC05ToVoteList runs the real CommitVoteList.toVoteList (the conversion
+// used by processBlock and by WALRecordBytesFromCommitVoteListBytes) against
+// the given validator list and returns, per item, the index the list assigns to
+// the recovered signer.
+func VerifC05ToVoteList(cvl *CommitVoteList, height int64, bid []byte, validators module.ValidatorList) (idx []int, err error, panicked string) {
+	defer func() {
+		if x := recover(); x != nil {
+			panicked = "panic: " + toString(x)
+		}
+	}()
+	vl, err := cvl.toVoteList(height, bid, nil, validators, module.ZeroNTSHashEntryList{}, db.NewMapDB())
+	if err != nil {
+		return nil, err, ""
+	}
+	for i := 0; i < vl.Len(); i++ {
+		idx = append(idx, validators.IndexOf(vl.Get(i).address()))
+	}
+	return idx, nil, ""
 }
